@@ -41,6 +41,16 @@ package frt
 //@   panics never
 //@   ensures out: glob(stdout) == old(glob(stdout)) + sprintf(fmtstr, arg)
 
+//@ func OpEqual
+//@   props C10 C14
+//@   panics never
+//@   returns struct_eq(e1, e2)
+
+//@ func OpNotEqual
+//@   props C10 C14
+//@   panics never
+//@   returns !struct_eq(e1, e2)
+
 //@ func OpAnd
 //@   props C14
 //@   panics never
